@@ -280,6 +280,99 @@ def register(reg):
                          (GA, ["ipi() * p43() / pn()", "c0() - 4 * split()", "sg()", None])])]))])
 
 
+# ------------------------------------------------------------------------------------------------ GaussianQuadrature (integrators1d.pyx)
+IQ = "cherab/core/math/integrators/integrators1d.pyx"
+
+
+def _np_zeros(eng, st, fr, recv, args, kwargs):
+    import z3
+    from pyvc.values import to_int
+    o = eng.new_obj(st, 'ndarray', 'arr', 'real', 1, name='zeros')
+    st.heap['$len'] = z3.Store(eng.field(st, '$len'), o.ref, to_int(args[0]))
+    return o
+
+
+def _roots_legendre(eng, st, fr, recv, args, kwargs):
+    """scipy.special.roots_legendre(n): two fresh arrays of length n holding the Gauss-Legendre nodes GLR(n, i) and weights GLW(n, i)."""
+    import z3
+    from pyvc.values import to_int
+    n = to_int(args[0])
+    out = []
+    for nm in ('GLR', 'GLW'):
+        o = eng.new_obj(st, 'ndarray', 'arr', 'real', 1, name=nm.lower())
+        st.heap['$len'] = z3.Store(eng.field(st, '$len'), o.ref, n)
+        f = z3.Function('G_' + nm, z3.IntSort(), z3.IntSort(), z3.RealSort())
+        eng.counter += 1
+        k = z3.Int('k!gl%d' % eng.counter)
+        fid = '$d1:real'
+        st.heap[fid] = z3.Store(eng.field(st, fid), o.ref, z3.Lambda([k], f(n, k)))
+        out.append(o)
+    return tuple(out)
+
+
+GQ_CONSTS = {"T": "fn:int->int", "GLR": "fn:int,int->real", "GLW": "fn:int,int->real", "QS": "fn:int,int,real,real,ref->real"}
+GQ_AXIOMS = ["T(1) == 0", "forall(n, n >= 1, T(n + 1) == T(n) + n)",
+             # consequences of the recursion (induction on b): stated as axioms, discharged separately as lemmas below
+             "forall((a, b), 1 <= a and a <= b, T(a) <= T(b))"]
+GQ_GHOST = {"mn()": "self._min_order", "mx()": "self._max_order", "off(n)": "T(n) - T(mn())",
+            "R(k)": "self._roots_mv[k]", "W(k)": "self._weights_mv[k]"}
+GQ_INV = ["1 <= mn() and mn() <= mx()", "not is_none(self._roots_mv) and not is_none(self._weights_mv)",
+          # long enough for every order in [min, max] (a longer array - e.g. after the maximum order was lowered - is harmless)
+          "length(self._roots_mv) >= T(mx() + 1) - T(mn()) and length(self._weights_mv) >= T(mx() + 1) - T(mn())",
+          # the cache holds, order after order starting at the MINIMUM order, the nodes and weights of every order in [min, max]
+          "forall((n, i), mn() <= n and n <= mx() and 0 <= i and i < n, R(off(n) + i) == GLR(n, i) and W(off(n) + i) == GLW(n, i))"]
+
+
+def register_quadrature(reg):
+    A = {"_roots": "arr:real:1", "_weights": "arr:real:1", "_roots_mv": "arr:real:1", "_weights_mv": "arr:real:1"}
+    EXT = {'zeros': {'kind': 'custom', 'fn': _np_zeros, 'doc': 'numpy.zeros(n): fresh array of length n'},
+           'roots_legendre': {'kind': 'custom', 'fn': _roots_legendre, 'doc': 'scipy roots_legendre(n): nodes GLR(n, .) and weights GLW(n, .) (uninterpreted)'}}
+    reg.contract(IQ, "GaussianQuadrature._build_cache", PROP, attrs=A, consts=GQ_CONSTS, ghost=GQ_GHOST, externals=EXT,
+        # closed form of the triangular numbers (lemma quadrature.T_closed_form, by induction): ties the allocated length to the layout
+        axioms=GQ_AXIOMS + ["forall(n, n >= 1, 2 * T(n) == n * (n - 1))"],
+        requires=["1 <= mn() and mn() <= mx()"],
+        loops={0: dict(invariant=["mn() <= order and order <= mx() + 1", "i == off(order)",
+                                  "not is_none(self._roots) and not is_none(self._weights)",
+                                  "not same(self._roots, self._weights)",
+                                  "length(self._roots) == n and length(self._weights) == n",
+                                  "forall((q, j), mn() <= q and q < order and 0 <= j and j < q, "
+                                  "self._roots[off(q) + j] == GLR(q, j) and self._weights[off(q) + j] == GLW(q, j))",
+                                  "unchanged('_min_order:int') and unchanged('_max_order:int')"])},
+        flags={'locals': {}},
+        ensures=[(("cache_layout.%d" % k), c) for k, c in enumerate(GQ_INV)] + [("orders_kept", "mn() == old(mn()) and mx() == old(mx())")])
+    for which, bad in (("min_order", "value < 1 or value > mx()"), ("max_order", "value < 1 or value < mn()")):
+        reg.contract(IQ, "GaussianQuadrature.%s.setter" % which, PROP, attrs=A, consts=GQ_CONSTS, axioms=GQ_AXIOMS, ghost=GQ_GHOST,
+            sorts={"value": "int"}, requires=GQ_INV,
+            raises={"ValueError": bad}, flags={'raises_ensures': {"ValueError": [("unchanged", "heap_unchanged()")]}},
+            ensures=[(("cache_layout.%d" % k), c) for k, c in enumerate(GQ_INV)] +
+                    [("stored", "self._%s == value" % which)])
+    reg.contract(IQ, "GaussianQuadrature.evaluate", PROP, attrs=A, consts=GQ_CONSTS, ghost=dict(GQ_GHOST, **{
+            "c()": "0.5 * (a + b)", "d()": "0.5 * (b - a)", "Q(n, j)": "QS(n, j, c(), d(), self.function)",
+            "fx(n, j)": "self.function.evaluate(c() + d() * GLR(n, j))"}),
+        axioms=GQ_AXIOMS + ["forall(n, QS(n, 0, c(), d(), self.function) == 0)",
+                            "forall((n, j), j >= 0, QS(n, j + 1, c(), d(), self.function) == QS(n, j, c(), d(), self.function) + GLW(n, j) * fx(n, j))"],
+        sorts={"a": "real", "b": "real"}, requires=GQ_INV + ["not is_none(self.function)"],
+        loops={0: dict(invariant=["mn() <= order and order <= mx() + 1", "ibegin == off(order)",
+                                  "implies(order > mn(), newval == d * Q(order - 1, order - 1))", "c == c() and d == d()"]),
+               1: dict(invariant=["ibegin <= i and i <= ibegin + order", "newval == Q(order, i - ibegin)", "c == c() and d == d()"])},
+        result='real',
+        # the value returned is a Gauss-Legendre rule of SOME order between the minimum and the maximum: (b-a)/2 * sum_j w_j f(c + d x_j)
+        ensures=[("gauss_legendre_rule", "exists(n, mn() <= n and n <= mx() and result == d() * Q(n, n))")], modifies=[])
+
+
+def _quadrature_lemmas(ctx):
+    """T is non-decreasing on the positive integers: induction on the upper argument (base and step are separate obligations)."""
+    import z3
+    T = z3.Function('Tl', z3.IntSort(), z3.IntSort())
+    n, a, b = z3.Ints('n a b')
+    rec = z3.ForAll([n], z3.Implies(n >= 1, T(n + 1) == T(n) + n))
+    out = [lemma('quadrature.T_monotone.base', PROP, [rec, a >= 1], T(a) <= T(a), 'T(a) <= T(a)'),
+           lemma('quadrature.T_monotone.step', PROP, [rec, a >= 1, b >= a, T(a) <= T(b)], T(a) <= T(b + 1), 'T(a) <= T(b) implies T(a) <= T(b+1)')]
+    out += [lemma('quadrature.T_closed_form.base', PROP, [rec, T(1) == 0], 2 * T(1) == 1 * (1 - 1), '2 T(1) = 1 * 0'),
+            lemma('quadrature.T_closed_form.step', PROP, [rec, a >= 1, 2 * T(a) == a * (a - 1)], 2 * T(a + 1) == (a + 1) * a, '2 T(a) = a (a-1) implies 2 T(a+1) = (a+1) a')]
+    return out
+
+
 def _weights_lemmas(ctx):
     R = z3.Real
     rad, c2 = R('radiance'), R('c2')
@@ -307,8 +400,45 @@ def _weights_lemmas(ctx):
     return out
 
 
-LEMMAS = [_weights_lemmas]
+LEMMAS = [_weights_lemmas, _quadrature_lemmas]
 
 EXTERNALS = {
     'hyp2f1': {'kind': 'pure', 'result': 'real', 'doc': 'scipy.special.hyp2f1 (normalisation constant of the Lomanowski profile)'},
 }
+
+
+_register_lines = register
+
+
+def register(reg):
+    _register_lines(reg)
+    register_quadrature(reg)
+
+
+def native_replay(ctx, o):
+    """GaussianQuadrature obligations: integrators configured through the setters (every order of raising / lowering min_order and
+    max_order) must integrate like one configured through the constructor, and integrate polynomials exactly."""
+    if 'GaussianQuadrature' not in o.name:
+        return None
+    from replaylib.native import run_native
+    code = """
+from cherab.core.math.integrators import GaussianQuadrature
+import math
+f = lambda x: math.exp(-0.5 * x * x) * (1 + x) ** 2
+bad = []
+for (mn0, mx0), steps in (((1, 50), [("min_order", 4), ("max_order", 12)]), ((1, 50), [("max_order", 12), ("min_order", 4)]),
+                          ((6, 20), [("min_order", 2), ("min_order", 5)]), ((3, 9), [("max_order", 30), ("max_order", 8), ("min_order", 7)])):
+    q = GaussianQuadrature(f, 1e-10, mx0, mn0)
+    for name, v in steps:
+        setattr(q, name, v)
+    fresh = GaussianQuadrature(f, 1e-10, q.max_order, q.min_order)
+    a, b = q(-1.0, 2.5), fresh(-1.0, 2.5)
+    if not abs(a - b) <= 1e-12 * abs(b):
+        bad.append({"constructed_with_orders": [mn0, mx0], "setters": steps, "integral_after_setters": a, "integral_fresh_integrator": b})
+print(json.dumps({"bad": bad[:3], "nbad": len(bad)}))
+"""
+    out = run_native(ctx, code, timeout=300)
+    exp = 'same value as an integrator constructed with the final orders'
+    if out and out.get('nbad'):
+        return {'confirmed': True, 'input': out['bad'][0], 'observed': out, 'expected': exp}
+    return {'confirmed': False, 'input': None, 'observed': out, 'expected': exp}
